@@ -33,6 +33,9 @@ pub fn all(seed: u64) -> Vec<Scenario> {
     for p in ["C02", "C03", "C08", "C10"] {
         v.extend(shared::shared(p, seed));
     }
+    for p in ["C02", "C03", "C04", "C05", "C06", "C07", "C08", "C10", "C11", "C12"] {
+        v.extend(shared::generated(p, seed, 30, 200));
+    }
     v.extend(shared::faults(seed));
     v.extend(shared::fees(seed));
     v.extend(shared::c04(seed));
